@@ -8,6 +8,7 @@ import MotoModel.Proofs.DiskPreserve
 import MotoModel.Proofs.DiskRuns
 import MotoModel.Proofs.DiskUntouched
 import MotoModel.Proofs.DiskCatalogFrame
+import MotoModel.Proofs.DiskTrack20
 namespace Moto.C06
 open Moto Moto.Disk
 
@@ -173,5 +174,29 @@ theorem catalog_and_table_change_only_for_added_files (fl : Flavour) (w : Tape.W
   rw [add_on_saved fl w verbose archive img srcs himg]
   refine ⟨st.img, hok, ?_, hcat, htab⟩
   unfold performOn; rw [if_neg (by rw [himg.1]; omega), hst]
+
+/-- **C06 (… the allocation table and catalog sectors excepted, and there only the bytes describing the added files — the rest
+    of track 20, the whole invocation)**: `--add` on the archive of any consistent image with any batch: on every side the first
+    sector of track 20 (it belongs to reserved block 40 and is neither the table nor the catalog) holds the same bytes in the
+    written image, and so do byte 0 and bytes 161..255 of the table's sector — whoever wrote them.  With
+    `used_blocks_never_modified` (every other block in use or reserved) and `catalog_and_table_change_only_for_added_files` (the
+    statuses 1..160 and the fourteen catalog sectors) this covers every byte of every block that was in use or reserved: the bytes
+    the defect F12 zeroed are these. -/
+theorem table_edges_and_track20_kept (fl : Flavour) (w : Tape.World) (verbose : Bool) (archive : Str) (img : Image) (srcs : List Str)
+    (himg : ImgOk img) (hs : ∀ src ∈ srcs, CleanSrc src) :
+    ∃ img', ImgOk img'
+      ∧ (add fl w verbose archive (save fl img) srcs).writes = [(archive, save fl img')]
+      ∧ ∀ k, k < 4 → (img'.getD k []).getD 320 [] = (img.getD k []).getD 320 []
+          ∧ (getSector (img'.getD k []) batTrack batSector).take 1 = (getSector (img.getD k []) batTrack batSector).take 1
+          ∧ (getSector (img'.getD k []) batTrack batSector).drop 161 = (getSector (img.getD k []) batTrack batSector).drop 161 := by
+  obtain ⟨st, hst, hok, hkeep⟩ := batch_keeps_track20_rest w verbose img srcs himg hs
+  rw [add_on_saved fl w verbose archive img srcs himg]
+  refine ⟨st.img, hok, ?_, ?_⟩
+  · unfold performOn; rw [if_neg (by rw [himg.1]; omega), hst]
+  · intro k hk
+    obtain ⟨h1, h2⟩ := hkeep k hk
+    unfold edgeOf at h2
+    injection h2 with h2a h2b
+    exact ⟨h1, h2a, h2b⟩
 
 end Moto.C06
